@@ -193,7 +193,7 @@ def execute_history(spec, ctx, judges=None):
                 probe("fault_fired_" + f)
         if status != "ok":
             probe("aborted_in_" + stage_of(message))
-            if trace.open_write_unclosed or any(e[0].startswith("late-") for e in trace.events):
+            if getattr(trace, "left_open", None) or any(e[0].startswith("late-") for e in trace.events):
                 probe("abort_left_open_handles")
         if env.reads:
             for what, n in env.reads.items():
